@@ -26,9 +26,15 @@ def make_machine(mod, job, mode='real'):
     m.libm_small = bool(job.get('libm_small', False))
     m.rehash_bias = job.get('rehash_bias', 0)
     m.fork_int_selects = bool(job.get('fork_int_selects', False))
+    import llsym.terms as _t
+    _t.ROUND_CONCRETE[0] = bool(job.get('round_concrete', False)) and mode == 'real'
     hook = job.get('machine_hook')
     if hook:
         _PROP['hooks'][hook](m, job)
+    if job.get('omp_race'):
+        from . import omp as _omp
+        _omp.install(m, 'race', sel_loop=job.get('omp_loop', -2), sel_region=job.get('omp_region', -1))
+        m.nthreads = job.get('threads', 2)
     return m
 
 
@@ -288,13 +294,31 @@ def _job_worker(idx):
     enum = make_enum(job, workdir) if job.get('concretize') else None
     worklist = [()]
     paths = []
+    race_plan = None
+    if job.get('omp_race'):
+        # discovery run: no region selected -> number of parallel regions this entry executes
+        pr0 = run_path(_MOD, dict(job, omp_region=-1), (), None, None)
+        if pr0.outcome == 'engine-error':
+            return dict(idx=idx, fatal='race discovery failed: ' + str(pr0.error))
+        race_plan = []
+        for r in range(pr0.m.omp.region_count):
+            pr1 = run_path(_MOD, dict(job, omp_region=r, omp_loop=-2), (), None, None)
+            nloops = len([k for k in pr1.m.omp.loops if k[0] == r])
+            race_plan.append((r, -2))
+            race_plan += [(r, l) for l in range(nloops)]
+        job = dict(job, omp_region=race_plan[0][0], omp_loop=race_plan[0][1]) if race_plan else job
+        race_pos = 0
     summary = dict(idx=idx, label=job.get('label', job['entry']), entry=job['entry'], args=job.get('args', []), paths=[],
                    steps=0, fn_steps={}, ext_hits={}, batches=[], trivial=0, obligations=0, events=[], errors=[],
                    reached=[], outcomes={}, nsyms=0, nterms=0, libm_log={})
     max_paths = job.get('max_paths', 4000)
     reached = set()
     bsize = job.get('batch', 8)
-    while worklist:
+    while worklist or (race_plan and race_pos + 1 < len(race_plan)):
+        if not worklist:
+            race_pos += 1
+            job = dict(job, omp_region=race_plan[race_pos][0], omp_loop=race_plan[race_pos][1])
+            worklist = [()]
         prefix = worklist.pop()
         pr = run_path(_MOD, job, prefix, feas, enum)
         m = pr.m
@@ -451,7 +475,10 @@ def _job_worker(idx):
                                                goals=[dict(tag=ob['tag'], k=ob['k'], kind=ob['kind'], extra=ob.get('extra')) for ob, g in chunk]))
         if getattr(m, 'omp', None) is not None and m.omp.mode == 'race' and pr.outcome not in ('engine-error', 'infeasible'):
             from . import omp as _omp
-            summary.setdefault('omp_paths', []).append(_omp.serialise_path(m, pid))
+            sp = _omp.serialise_path(m, pid)
+            sp['region'] = job.get('omp_region')
+            sp['loop'] = job.get('omp_loop')
+            summary.setdefault('omp_paths', []).append(sp)
         summary['nterms'] = max(summary['nterms'], Term._n)
         if len(summary['paths']) >= max_paths:
             summary['errors'].append(dict(path=-1, error=f'path budget {max_paths} exhausted with {len(worklist)} prefixes pending'))
